@@ -63,25 +63,38 @@ type ZOpt struct {
 // Call is one API call on a transaction.  All fields are plain data so that histories can be
 // stored as replay files.
 type Call struct {
-	F   string   `json:"f"`
-	B   string   `json:"b,omitempty"`
-	B2  string   `json:"b2,omitempty"`
-	K   string   `json:"k,omitempty"`
-	K2  string   `json:"k2,omitempty"`
-	V   string   `json:"v,omitempty"`
-	Vs  []string `json:"vs,omitempty"`
-	TTL uint32   `json:"ttl,omitempty"`
-	TS  int64    `json:"ts,omitempty"` // PutWithTimestamp: timestamp = now + TS
-	I   int      `json:"i,omitempty"`
-	J   int      `json:"j,omitempty"`
-	X   float64  `json:"x,omitempty"`
-	Y   float64  `json:"y,omitempty"`
-	XS  string   `json:"xs,omitempty"` // "nan" | "+inf" | "-inf" overrides X (JSON has no such numbers)
-	YS  string   `json:"ys,omitempty"`
-	Re  string   `json:"re,omitempty"`
-	Z   *ZOpt    `json:"z,omitempty"`
-	NilK bool    `json:"nilk,omitempty"` // pass a nil key slice
-	Big int      `json:"big,omitempty"`  // value is Big bytes of 'x' (oversized entries)
+	F    string   `json:"f"`
+	B    string   `json:"b,omitempty"`
+	B2   string   `json:"b2,omitempty"`
+	K    string   `json:"k,omitempty"`
+	K2   string   `json:"k2,omitempty"`
+	V    string   `json:"v,omitempty"`
+	Vs   []string `json:"vs,omitempty"`
+	TTL  uint32   `json:"ttl,omitempty"`
+	TS   int64    `json:"ts,omitempty"` // PutWithTimestamp: timestamp = now + TS
+	I    int      `json:"i,omitempty"`
+	J    int      `json:"j,omitempty"`
+	X    float64  `json:"x,omitempty"`
+	Y    float64  `json:"y,omitempty"`
+	XS   string   `json:"xs,omitempty"` // "nan" | "+inf" | "-inf" overrides X (JSON has no such numbers)
+	YS   string   `json:"ys,omitempty"`
+	Re   string   `json:"re,omitempty"`
+	Z    *ZOpt    `json:"z,omitempty"`
+	NilK bool     `json:"nilk,omitempty"` // pass a nil key slice
+	Big  int      `json:"big,omitempty"`  // value is Big bytes of 'x' (oversized entries)
+	Fill string   `json:"fill,omitempty"` // with Big: "zero" = bytes 0x00, "ff" = bytes 0xff instead of 'x'
+}
+
+// BigVal is the value of a call with Big > 0.
+func (c Call) BigVal() string {
+	ch := "x"
+	switch c.Fill {
+	case "zero":
+		ch = "\x00"
+	case "ff":
+		ch = "\xff"
+	}
+	return strings.Repeat(ch, c.Big)
 }
 
 func (c Call) String() string {
@@ -101,7 +114,7 @@ func (c Call) String() string {
 		sb.WriteString("," + strconv.Quote(c.K2))
 	}
 	if c.Big > 0 {
-		fmt.Fprintf(&sb, ",<%d bytes>", c.Big)
+		fmt.Fprintf(&sb, ",<%d bytes%s>", c.Big, map[string]string{"": "", "zero": " 0x00", "ff": " 0xff"}[c.Fill])
 	} else if c.V != "" || c.F == "Put" || c.F == "PutTS" {
 		sb.WriteString("," + strconv.Quote(c.V))
 	}
@@ -143,14 +156,14 @@ type Fault struct {
 // Op is one transition of a history.
 type Op struct {
 	// Kind: update | view | begin-commit | begin-rollback | reopen | merge | backup | tick
-	Kind      string  `json:"kind"`
-	Calls     []Call  `json:"calls,omitempty"`
-	ErrAfter  int     `json:"err_after,omitempty"` // body returns an error after this many calls (0 = no)
-	IgnoreErr bool    `json:"ignore_err,omitempty"`
-	SameMs    bool    `json:"same_ms,omitempty"` // deviation: the ms clock does not advance before Begin
-	Fault     *Fault  `json:"fault,omitempty"`
-	Ticks     int64   `json:"ticks,omitempty"`
-	Note      string  `json:"note,omitempty"`
+	Kind      string `json:"kind"`
+	Calls     []Call `json:"calls,omitempty"`
+	ErrAfter  int    `json:"err_after,omitempty"` // body returns an error after this many calls (0 = no)
+	IgnoreErr bool   `json:"ignore_err,omitempty"`
+	SameMs    bool   `json:"same_ms,omitempty"` // deviation: the ms clock does not advance before Begin
+	Fault     *Fault `json:"fault,omitempty"`
+	Ticks     int64  `json:"ticks,omitempty"`
+	Note      string `json:"note,omitempty"`
 }
 
 func (o Op) String() string {
